@@ -87,6 +87,7 @@ type sce struct {
 	wire       bool
 	callback   bool
 	vmode      int
+	realFet    gmsl.KeyFetcher // the library's own Direct / Perspective fetcher instead of the stub
 	senderMark *mark
 
 	L       *world.Ledger
@@ -119,6 +120,9 @@ func (s *sce) owns(n spec.ServerName) bool {
 func (s *sce) verifier() gmsl.JSONVerifier {
 	if s.vmode == vLedger {
 		return s.ver
+	}
+	if s.realFet != nil {
+		return &gmsl.KeyRing{KeyFetchers: []gmsl.KeyFetcher{s.realFet}, KeyDatabase: s.db}
 	}
 	return &gmsl.KeyRing{KeyFetchers: []gmsl.KeyFetcher{s.fet}, KeyDatabase: s.db}
 }
@@ -230,6 +234,15 @@ func body(r *sim.Run) {
 			}
 		}
 		s.fet.mode = t.Weighted([]int{8, 1, 1})
+		if t.Chance(350) {
+			// D's key ring fetches with the library's own fetchers: directly
+			// from O, or through a notary that may still serve the response
+			// it cached before O's last rotation, followed by the current one
+			notary := world.NewCompactServer(t, "notary.example", time.Now())
+			persp := t.Bool()
+			s.realFet = realFetcher(s.fet, notary, persp, persp && t.Bool(), r.Probe)
+			r.Probe(map[bool]string{true: "keyring_perspective_fetcher", false: "keyring_direct_fetcher"}[persp])
+		}
 		s.db.fetchErr = t.Chance(15)
 		s.db.storeErr = t.Chance(15)
 		vdesc = fmt.Sprintf("ring(db_seeded=%v fetcher=%d dbFetchErr=%v dbStoreErr=%v)", seeded, s.fet.mode, s.db.fetchErr, s.db.storeErr)
